@@ -8,7 +8,7 @@ src=/tmp/wt-$wt/SEED
 dst=/verif/seeded/$name
 mkdir -p $dst
 cp $src/patch.diff $dst/patch.diff
-for f in demo.sh demo.md meta.json demo_output_modified.txt demo_output_original.txt; do [ -f $src/$f ] && cp $src/$f $dst/; done
+for f in $src/*; do [ -f "$f" ] && [ $(stat -c %s "$f") -lt 300000 ] && cp "$f" $dst/; done; for f in $dst/*.py $dst/*.sh; do [ -f "$f" ] && sed -i "s#/tmp/wt-$wt/target/debug#/repo/target/debug#g; s#/tmp/wt-$wt/SEED#$dst#g; s#/tmp/wt-$wt#/repo#g" "$f"; done
 # the demonstration must run from /repo's build
 [ -f $dst/demo.sh ] && sed -i "s#/tmp/wt-$wt/target/debug#/repo/target/debug#g; s#/tmp/wt-$wt/SEED#$dst#g; s#/tmp/wt-$wt#/repo#g" $dst/demo.sh
 cd /repo
